@@ -84,7 +84,8 @@ def forgeries(blob, rec):
     kl = struct.unpack_from("<I", ki, 4)[0]
     p_, g_ = int.from_bytes(ki[8:8 + kl], "big"), int.from_bytes(ki[8 + kl:8 + 2 * kl], "big")
     # (label, field order put in the blob, public value put in the blob, shared secrets the forger bets on)
-    plans = [("y=1", p_, 1, [1]), ("y=0", p_, 0, [0]), ("y=p-1", p_, p_ - 1, [1, p_ - 1]), ("p=2,y=1", 2, 1, [1]), ("p=1", 1, 0, [0])]
+    plans = [("y=1", p_, 1, [1]), ("y=0", p_, 0, [0]), ("y=p-1", p_, p_ - 1, [1, p_ - 1]), ("p=2,y=1", 2, 1, [1]), ("p=1", 1, 0, [0]),
+             ("p=4,y=2", 4, 2, [0]), ("p=9,y=3", 9, 3, [0]), ("p=8,y=4", 8, 4, [0])]       # in-range values of a foreign group with a predictable secret
     for label, fo, y, bets in plans:
         for z in bets:
             try:
@@ -166,6 +167,17 @@ def work(job):
         if out is not None and out.startswith("done ") and out != "done " + hx(data):
             ctx.violation("a modified blob decrypts to different plaintext", {"config": [rec.hash_name, rec.secret_algorithm, mode, layout], "mutation": kind,
                                                                             "blob": hx(m), "real_crypto": real}, out[:80], "error or the original plaintext")
+        if kind.startswith("forgery:") and rec.secret_algorithm == "DH" and len(rec.secret_parameters) > 100:
+            # the same forgery against a cache whose root key was loaded with the secret parameters left to their default (None / b"")
+            for how in ("none", "empty"):
+                s2 = clientsim.Sim(dc, real_crypto=real)
+                with s2.world():
+                    s2.load(rec, explicit_params=(how == "empty"), empty_secret_parameters=(how == "empty"))
+                    out2 = s2.unprotect(m, no_reply=True)
+                ctx.count(f"real:forgery:root-params-{how}")
+                if out2 is not None and out2.startswith("done ") and out2 != "done " + hx(data):
+                    ctx.violation("a modified blob decrypts to different plaintext", {"config": [rec.hash_name, rec.secret_algorithm, mode, layout], "mutation": kind,
+                                                                                    "blob": hx(m), "real_crypto": real, "root_key_secret_parameters": how}, out2[:80], "error or the original plaintext")
         if out is not None and out.startswith("done ") and m != blob:
             ctx.count("mutant_still_decrypts_to_original")
         if not real:
@@ -226,8 +238,9 @@ def replay(ctx, payload):
     dc = refdc.KeyServer(now=(361, 17, 13), **kw)
     dc.add_root(rec)
     s = clientsim.Sim(dc, real_crypto=real)
+    how = v.get("root_key_secret_parameters")
     with s.world():
-        s.load(rec)
+        s.load(rec, explicit_params=(how != "none"), empty_secret_parameters=(how == "empty"))
         out = s.unprotect(bytes.fromhex(v["blob"]), no_reply=True)
     print("mutant →", out)
     return not (out or "").startswith("done ")
